@@ -24,7 +24,8 @@ REQUIRED_COUNTERS = ("computes_checked", "recomputes_on_stale_state", "perm_case
 
 SETS = [[(0, 4), (10, 4)], [(1, 4), (1.5, 4), (2, 1)], [(0, 4), (1, 4), (1, 4), (2.5, 1), (6, 4)], [(3, 4), (3, 4), (3, 4), (3.5, 1)]]
 CFG = [{"maxPos": 10}, {"maxPos": None}, {"algorithm": "simple", "maxPos": 9}, {"nodeSpacing": 1.5, "stubWidth": 2},
-       {"algorithm": "none", "minPos": 0, "maxPos": 40}]
+       {"algorithm": "none", "minPos": 0, "maxPos": 40},
+       {"minPos": 0, "maxPos": 30, "layerWidth": 30}]  # a caller-supplied layerWidth (Force.metric needs the key) next to bounds
 OTHER = [{"maxPos": 7, "density": 0.4, "nodeSpacing": 0, "stubWidth": 0, "algorithm": "simple"}, {"algorithm": "none", "maxPos": 50},
          {"lineSpacing": 9, "maxPos": 10}]
 OPS = ([("N", i) for i in range(len(SETS))] + [("P", "rev"), ("P", "rot"), ("C", None)] + [("O", j) for j in range(len(CFG))]
